@@ -246,6 +246,38 @@ func (pt *Point) Mv2Tag(key string) error {
 	return nil
 }
 
+// Rename moves key from (its value, its kind - tag or field - and its type) to key to,
+// replacing whatever to held before; the key index moves with it.
+func (pt *Point) Rename(to, from string) error {
+	if to == from {
+		return nil
+	}
+
+	m, ok := pt.Meta[from]
+	if !ok {
+		return fmt.Errorf("key(from) %s not found", from)
+	}
+
+	pt.Delete(to)
+
+	switch m.PtFlag { //nolint:exhaustive
+	case PtField:
+		if v, ok := pt.Fields[from]; ok {
+			pt.Fields[to] = v
+		}
+		delete(pt.Fields, from)
+	case PtTag:
+		if v, ok := pt.Tags[from]; ok {
+			pt.Tags[to] = v
+		}
+		delete(pt.Tags, from)
+	}
+
+	delete(pt.Meta, from)
+	pt.Meta[to] = m
+	return nil
+}
+
 func (pt *Point) SetMeasurement(m string) {
 	pt.Measurement = m
 }
